@@ -61,13 +61,13 @@ theorem compute_ascending (hlt : K.lt = ltDec)
   have hloop := loop_sat K c (K.tolL2 tol c.n) (fun s' _ => s'.evals.Pairwise (· < ·))
     (fun s' _ _ => s'.evals.Pairwise (· < ·))
     (fun it s1 l1 h1 => step_sorted K c hlt hrr _ it s1 l1 h1) (fun _ _ h => h)
-    fuel 0 (initPhase K s0).1 (initPhase K s0).2.1 (initPhase_sorted K hlt heig s0 hok)
+    fuel 0 (initPhase K (reset s0)).1 (initPhase K (reset s0)).2.1 (initPhase_sorted K hlt heig (reset s0) hok)
   unfold eigenvalues
   rcases hs with ⟨_, _, hs⟩ | ⟨_, _, hs⟩
   · rw [hs]; exact hloop
   · obtain ⟨_, fe, _, _⟩ := finalize_frame K c (K.tolL2 tol c.n)
-      (loop K c (K.tolL2 tol c.n) fuel 0 (initPhase K s0).1 (initPhase K s0).2.1).1
-      (loop K c (K.tolL2 tol c.n) fuel 0 (initPhase K s0).1 (initPhase K s0).2.1).2.1
+      (loop K c (K.tolL2 tol c.n) fuel 0 (initPhase K (reset s0)).1 (initPhase K (reset s0)).2.1).1
+      (loop K c (K.tolL2 tol c.n) fuel 0 (initPhase K (reset s0)).1 (initPhase K (reset s0)).2.1).2.1
     rw [hs, fe]; exact hloop
 end asc
 end Lobpcg
